@@ -655,14 +655,18 @@ def addEnv (c : Cmd) : List Arg → P → R Unit
       | (p1, .ok _) => addEnv c as p1
     | _ => addEnv c as p
 
+/-- the condition of one conditional default: the trigger arg is in the matcher (with any source) and, for
+`Equals`, one of its raw values is the given one -/
+def defaultIfApplies (p : P) (id : Id) (pred : Pred) : Bool :=
+  match p.args.get id with
+  | some ma => (match pred with | .equals v => ma.rawFlat.any (· == v) | .isPresent => true)
+  | none => false
+
 /-- the `for (id, val, default) in arg.default_vals_ifs` loop -/
 def defaultIfLoop (c : Cmd) (a : Arg) : List (Id × Pred × Option Bytes) → P → Option (R Unit)
   | [], _ => none
   | (id, pred, dflt) :: more, p =>
-    let add := match p.args.get id with
-      | some ma => (match pred with | .equals v => ma.rawFlat.any (· == v) | .isPresent => true)
-      | none => false
-    if add then
+    if defaultIfApplies p id pred then
       match dflt with
       | some d =>
         match react c none .default a [d] none p with
